@@ -280,6 +280,7 @@ func c20(r *core.Run) {
 
 	r.Rule("T1", "one transaction: every Set/SetEntry/Delete on a badger.Txn in the middleware is made on the parameter of a closure passed directly to DB.Update, and that closure also reads the resource key before writing it", 10)
 	r.Rule("T2", "a refused write fails the event: in every apply handler the error returned by the Set / SetEntry / Delete that writes the resource itself flows into the return value of the update closure (through phis and result cells, and through a helper's result when the write sits in a helper)", 10)
+	r.Rule("R1", "what an event does not touch is stored as it was: the change, add and remove handlers decode the stored model / collection into raw elements (map[string]json.RawMessage, []json.RawMessage) before they re-encode it - decoded into interface{} every other property or element goes through float64, and an integer beyond 2^53 (a 64-bit id, a nanosecond timestamp) comes back as a different number although no event touched it", 6)
 	r.Rule("T3", "nothing fails after the commit: once DB.Update has returned without error the handler's changes are in the database, so every return of an apply handler after it yields a nil error (the error of DB.Update itself, or an error made on its non-nil edge, aside): an error there makes the event method panic before it publishes anything, although storage has already changed", 10)
 	r.Rule("V1", "Value serves what get serves now (shared with C16.O1): Resource.Value builds a fresh get request on every call and stores nothing into the resource it was called on - a value remembered in the resource is the value from before the events applied since", 5)
 	c16RequestsOwnTheirMemory(r, "V1")
@@ -320,6 +321,9 @@ func c20(r *core.Run) {
 				continue
 			}
 			c20NothingFailsAfterCommit(r, "T3", m, upd)
+			if name == "applyChange" || name == "applyAdd" || name == "applyRemove" {
+				c20UntouchedJSONKept(r, "R1", cl)
+			}
 			// read-modify-write on the same key inside the closure (statements may live in private
 			// helpers taking the transaction: they are lifted to their call sites in the closure)
 			var txnPrm ssa.Value
@@ -1231,4 +1235,38 @@ func c20NothingFailsAfterCommit(r *core.Run, rule string, m *ssa.Function, upd s
 		return
 	}
 	r.Check(ok, rule, core.FuncName(m), "no-error-once-the-update-has-committed", p.InstrPos(where), "after DB.Update only its own error is returned", "the handler can return an error of its own after DB.Update has returned without one: the transaction is committed (the stored resource is changed or gone), but the event method panics on the error before it publishes the event or calls a listener - storage has changed and nothing was published")
+}
+
+// c20UntouchedJSONKept is C20.R1.
+func c20UntouchedJSONKept(r *core.Run, rule string, cl *ssa.Function) {
+	p := r.P
+	n := 0
+	for _, c := range core.Calls(cl) {
+		if core.CalleeName(c) != "encoding/json.Unmarshal" || len(c.Common().Args) != 2 {
+			continue
+		}
+		dst := c.Common().Args[1]
+		if mi, ok := dst.(*ssa.MakeInterface); ok {
+			dst = mi.X
+		}
+		pt, ok := dst.Type().Underlying().(*types.Pointer)
+		if !ok {
+			continue
+		}
+		var elem types.Type
+		switch t := pt.Elem().Underlying().(type) {
+		case *types.Slice:
+			elem = t.Elem()
+		case *types.Map:
+			elem = t.Elem()
+		default:
+			continue
+		}
+		n++
+		raw := types.TypeString(elem, nil) == "encoding/json.RawMessage"
+		r.Check(raw, rule, core.FuncName(cl), "stored-value-decoded-into-raw-elements", p.InstrPos(c), "the container is decoded with its elements kept as raw JSON", "the stored value is decoded into "+types.TypeString(pt.Elem(), nil)+" and re-encoded: every element or property the event does not touch passes through float64 - an integer beyond 2^53 is stored back as a different number, so get and Value no longer serve the fold of the applied events")
+	}
+	if n == 0 {
+		r.Unres(rule, core.FuncName(cl)+".<container-decode>", "no json.Unmarshal into a slice or map in the handler's transaction body")
+	}
 }
